@@ -24,7 +24,7 @@ MANIFEST = {
     'note': 'EST_IDX_NA = 0 doubles as "no link" and as the index of the first fake node; aggregate pushes of the start nodes are therefore not paired.',
 }
 EXPLANATION = 'Reciprocal link-store pairing and seed / duration / propagation terms of the estimated-time network construction.'
-RULES = ['C15-1.reciprocal', 'C15-2.seed', 'C15-3.duration', 'C15-4.propagation', 'C15-5.origins', 'C15-6.events', 'C15-7.options', 'C15-8.swap', 'C15-9.helpers']
+RULES = ['C15-1.reciprocal', 'C15-2.seed', 'C15-3.duration', 'C15-4.propagation', 'C15-5.origins', 'C15-6.events', 'C15-7.options', 'C15-8.swap', 'C15-9.helpers', 'C15-10.join']
 ASSUMPTIONS = []
 
 
@@ -101,6 +101,7 @@ def run(ctx):
     duration(ctx)
     propagation(ctx)
     helpers(ctx)
+    speed_join(ctx)
 
 
 def reciprocal(ctx):
@@ -560,3 +561,101 @@ def helpers(ctx):
                                              or (is_dest_link(cond[2]) and 'link_points' in repr(cond[1]) and 'link_idx' in repr(cond[1])))
             ctx.check(ok, R, 'SavedSim::check_dests', 'the route is closed exactly when its last link equals the link of one of the destinations (all are tried)',
                       'finish is called under %s' % ([(show(c, an.names)[:120], o) for c, o in fin[0].pc] if fin else 'no call'), ctx.where(b))
+
+
+def speed_join(ctx):
+    """C15-10.join: joining a new route into the network at a node reached with (nearly) the same speed.
+    * the node joined is the space-matched candidate with the smallest speed difference below the threshold (running minimum
+      over ALL join paths, candidate index updated together with it);
+    * a node with a free primary predecessor takes the route's last node as that predecessor, and that node points forward to it
+      (reciprocal pair, and the link duration / distance become the remainder of the added step);
+    * a node with a free alternate predecessor gets a new fake node there, pointing forward to it (reciprocal pair; the new node's
+      index is the length of the list before the push), and the join continues at that fake node;
+    * otherwise the join continues along the ALTERNATE predecessor (the primary one belongs to another route)."""
+    R = 'C15-10.join'
+    b = fn(ctx, 'perform_speed_join')
+    if b is None:
+        ctx.unproved(R, 'perform_speed_join', 'anchor not found'); return
+    eng = engine(ctx)
+    eng.all_paths.add(b.fid)
+    an = analysis_or_fail(ctx, R, b)
+    if an is None:
+        return
+    w = ctx.where(b)
+    from .common import plain_iteration
+    ET = (('obj', 2),)
+    # --- the two loops: selection (iterates the join paths), joining (carries est_times)
+    Hs = list(an.loop_entry)
+    Hj = [h for h in Hs if ET in (an.havoc.get(h) or ())]
+    Hsel = [h for h in Hs if h not in Hj]
+    if len(Hj) != 1 or len(Hsel) != 1:
+        ctx.unproved(R, 'perform_speed_join', 'expected a selection loop and a joining loop, found %d loops (%d carrying est_times)' % (len(Hs), len(Hj)), w); return
+    Hj, Hsel = Hj[0], Hsel[0]
+    # carried locals of the selection loop with a defined entry value
+    carried = []
+    for k in (an.havoc.get(Hsel) or ()):
+        e = an.load(k, an.loop_entry[Hsel])
+        if e[0] != 'undef' and k[0][0] == 'local' and len(k) == 1:
+            carried.append((k, e, [an.load(k, s_) for s_ in an.loop_back.get(Hsel, [])]))
+    best = [x for x in carried if x[1][0] == 'num' and x[1] != ZERO]
+    cand = [x for x in carried if x[1] == ZERO]
+    oks = len(best) == 1 and len(cand) == 1 and len(best[0][2]) == 1 and len(cand[0][2]) == 1
+    txt = ''
+    if oks:
+        Lb = ('loopvar', Hsel, best[0][0]); Lc = ('loopvar', Hsel, cand[0][0])
+        vb, vc = best[0][2][0], cand[0][2][0]
+        # γ(space match ? γ(diff < best ? diff : best) : best)   and the same decisions for the candidate
+        oks = vb[0] == 'gamma' and vc[0] == 'gamma' and vb[1] == vc[1] and vb[3] == Lb and vc[3] == Lc and vb[2][0] == 'gamma' and vc[2][0] == 'gamma' \
+            and vb[2][1] == vc[2][1] and vb[2][1][0] == 'lt' and vb[2][1][2] == Lb and vb[2][2] == vb[2][1][1] and vb[2][3] == Lb and vc[2][3] == Lc \
+            and 'speed' in repr(vb[2][2]) and vb[2][2][0] == 'abs' and "('f', 'link_idx_match')" in repr(vb[1])
+        txt = 'best: %s ; candidate: %s' % (show(vb, an.names)[:200], show(vc, an.names)[:200])
+        # candidate value = the est index of the same join path whose speed was compared
+        if oks:
+            okc = vc[2][2][0] == 'pre' and vc[2][2][1][0] == ('obj', 1) and any(c_[0] == 'idx' for c_ in vc[2][2][1]) and repr(vc[2][2]) in repr(vb[2][2])
+            oks = oks and okc
+    ctx.check(oks, R, 'perform_speed_join|selection', 'the candidate is the space-matched join path with the smallest speed difference so far, updated together with that minimum',
+              'selection loop carries %s' % (txt or [(show(e, an.names)[:30], [show(v, an.names)[:80] for v in bs]) for k, e, bs in carried]), w)
+    thr = best[0][1] if best else None
+    # --- joining loop
+    Lj = None
+    for k in (an.havoc.get(Hj) or ()):
+        e = an.load(k, an.loop_entry[Hj])
+        if cand and e == ('loopvar', Hsel, cand[0][0]):
+            Lj = ('loopvar', Hj, k); bj = [an.load(k, s_) for s_ in an.loop_back.get(Hj, [])]
+    if Lj is None:
+        ctx.unproved(R, 'perform_speed_join|joining loop', 'the joining loop does not start from the selected candidate', w); return
+    V = ('loopvar', Hj, ET)
+    def node(f_):
+        return ('proj', ('elem', V, ('uf', 'range', ('uf', 'unwrap', ('uf', '::try_into', Lj)))), ('f', f_))
+    newidx = ('uf', 'unwrap', ('uf', '::try_into', ('len', V)))
+    want_back = mk('gamma', mk('eq', node('idx_prev_alt'), ZERO), newidx, node('idx_prev_alt'))
+    ctx.check(len(bj) == 1 and bj[0] == want_back, R, 'perform_speed_join|continue',
+              'when both predecessors are taken the join moves on to the ALTERNATE predecessor; when the alternate is free, to the fake node attached there',
+              'the join node becomes %s' % [show(v, an.names)[:260] for v in bj], w)
+    # stores
+    st = {}
+    for bb, path, val, span in an.stores_log:
+        if path and path[0] == ('obj', 2) and len(path) == 3 and path[1][0] == 'idx' and path[2][0] == 'f':
+            st.setdefault(path[2][1], []).append((path[1][1], val, span))
+    jidx = ('uf', 'range', ('uf', 'unwrap', ('uf', '::try_into', Lj)))
+    last = ('uf', 'unwrap', ('uf', '::try_into', mk('sub', ('len', ('pre', ET)), ONE)))
+    lastidx = ('uf', 'range', ('uf', 'unwrap', ('uf', '::try_into', last)))
+    p1 = st.get('idx_prev', []); n1 = st.get('idx_next', [])
+    ok1 = len(p1) == 1 and p1[0][0] == jidx and p1[0][1] == last and len(n1) == 1 and n1[0][0] == lastidx and n1[0][1] == Lj
+    ctx.check(ok1, R, 'perform_speed_join|primary pair', 'join.idx_prev = last node of the route and last.idx_next = join (reciprocal)',
+              'idx_prev stores %s ; idx_next stores %s' % ([(show(a, an.names)[-50:], show(v, an.names)[:60]) for a, v, _ in p1], [(show(a, an.names)[-60:], show(v, an.names)[:40]) for a, v, _ in n1]), w)
+    pa = st.get('idx_prev_alt', [])
+    ps = [c for c in an.calls if '::push' in c.callee and c.argvals and c.argvals[0] == ('ref', ET, 'mut')]
+    ok2 = len(pa) == 1 and pa[0][0] == jidx and pa[0][1] == newidx and len(ps) == 1 and ps[0].argvals[1][0] == 'agg' and dict(ps[0].argvals[1][2]).get('idx_next') == Lj
+    if ok2:
+        f_ = dict(ps[0].argvals[1][2])
+        ok2 = all(f_.get(k) == ZERO for k in ('idx_prev', 'idx_prev_alt', 'idx_next_alt'))
+    ctx.check(ok2, R, 'perform_speed_join|alternate pair', 'join.idx_prev_alt = index of the new fake node (the list length before the push) and that node points forward to join only',
+              'idx_prev_alt stores %s ; pushes %s' % ([(show(a, an.names)[-50:], show(v, an.names)[:60]) for a, v, _ in pa], [show(c.argvals[1], an.names)[:160] for c in ps]), w)
+    # the join is attempted exactly when a candidate below the threshold was found
+    okx = False
+    for pc, rv in an.exit_paths:
+        if rv[0] == 'gamma' and thr is not None and best and rv[1] == mk('lt', ('loopvar', Hsel, best[0][0]), thr):
+            okx = True
+    ctx.check(okx, R, 'perform_speed_join|threshold', 'a join happens (and true is returned) exactly when the best difference is below the threshold it started from',
+              'exits: %s' % [show(rv, an.names)[:80] for pc, rv in an.exit_paths], w)
